@@ -39,6 +39,8 @@ CONFIGS = [
     # 0, False) under the raise option; and registration control combined with a running control of another scope
     ("keys", ("k",), True, (), "typed", "disabled"), ("task", (), True, (), "typed", "disabled"), ("arguments", (), False, (), "typed", "disabled"),
     ("arguments", (), False, (), "str", "keys"), ("keys", ("k",), True, (), "str", "arguments"), ("task", (), False, (), "str", "keys"),
+    # KEYS with NO key arguments: the registration key is empty, every submission has the same key (with and without the raise option)
+    ("keys", (), True, (), "str", "disabled"), ("keys", (), False, (), "str", "disabled"),
 ]
 LONG = "L" * 90
 TYPED = [1, True, 1.0, 0, False, "1"]
@@ -197,7 +199,10 @@ def run(ctx: Ctx) -> None:
                     else:
                         i = ctx.rng.choice(list(invs))
                         st = o.get_invocation_status(i)
-                        nxt = {S.REGISTERED: S.PENDING, S.PENDING: S.RUNNING, S.RUNNING: ctx.rng.choice([S.SUCCESS, S.FAILED])}.get(st)
+                        # (also the ways back into an available status that is NOT "registered": a re-routed and a retrying invocation
+                        #  do not collapse new submissions)
+                        nxt = {S.REGISTERED: S.PENDING, S.PENDING: ctx.rng.choice([S.RUNNING, S.RUNNING, S.REROUTED]),
+                               S.RUNNING: ctx.rng.choice([S.SUCCESS, S.FAILED, S.RETRY]), S.RETRY: S.PENDING, S.REROUTED: S.PENDING}.get(st)
                         if nxt is not None:
                             o.set_invocation_status(i, nxt, rctx("rA"))
                             drv.ask(f"o.set {tok(i)} {nxt.value} {tok('rA')} {clock.us}")
